@@ -1,4 +1,5 @@
 import Driver.Util
+import Driver.BreakerSeq
 import Garr.Retry.Model
 import Garr.Validate.Model
 import Garr.SpecParse.Model
@@ -127,6 +128,8 @@ def handlePure (line : String) : String :=
   | "spec" :: rest => handleSpec rest
   | "cfg" :: rest => handleCfg rest
   | "f64" :: rest => handleF64 rest
+  | "brk" :: rest => handleBrk rest
+  | "win" :: rest => handleWin rest
   | _ => "bad-op"
 
 end Driver
